@@ -13,7 +13,7 @@ EXPLANATION = 'path-sum/transposition proof over R[X]: A->B and B->A response po
 
 
 def check_swap(ctx, sc):
-    sc = dict(sc, samp_par=None, tables=None, S=sc['long_bins'] + 10)
+    sc = dict(sc, samp_par=None, samp_in=None, tables=None, S=sc['long_bins'] + 10)
     A = np.asarray(sc['src'], float)
     Bp = np.asarray(sc['recs'][0], float)
     c, dt = sc['c'], sc['dt']
